@@ -10,6 +10,7 @@ From WebP Require Import Lib.Res Lib.Arr Spec.Blend Model.AlphaBlend Model.Anim 
   Proofs.Anim_arr Proofs.Anim_composite Proofs.Anim_play.
 From WebP Require Spec.Container Model.ReadImage Proofs.Container_bytes Proofs.C01_top Proofs.ReadImage_base Proofs.ReadImage_container Proofs.ReadImage_vp8l Proofs.ReadImage_lossless Proofs.ReadImage_lossy Proofs.ReadImage_stillspec Proofs.ReadImage_wrap Proofs.ReadImage_safe Proofs.ReadImage_frame Proofs.ReadImage_anim.
 From WebP Require Spec.VP8 Model.Vp8Decode Proofs.VP8_decode_main Proofs.VP8_decode_planes Proofs.VP8_decode_readimage.
+From WebP Require Proofs.Container_fits.
 From WebP Require Spec.Container Spec.YUV Spec.VP8 Spec.Anim Model.AlphaBlend Model.Anim Model.ReadImage Model.Vp8Decode Proofs.C15_model Proofs.Container_bytes Proofs.C01_top Proofs.Anim_play
   Proofs.ReadImage_base Proofs.ReadImage_container Proofs.ReadImage_lossy Proofs.ReadImage_wrap Proofs.ReadImage_safe Proofs.ReadImage_frame Proofs.ReadImage_anim
   Proofs.VP8_decode_main Proofs.VP8_decode_planes Proofs.VP8_decode_readimage.
@@ -128,7 +129,6 @@ Module G.
            wf c = true ->
            anim c = true ->
            Forall2 (frame_decodes vp8 (fst (dims c)) (snd (dims c))) (frames c) ms ->
-           fst (dims c) * snd (dims c) * 4 < 4294967296 ->
            exists dec : Container_bytes.M.decoder,
              Container_bytes.M.new (serialize c) = Ok dec /\
              Container_bytes.M.num_frames dec = Z.of_nat (length ms) /\
@@ -142,7 +142,7 @@ Module G.
                   Anim.render (alpha c) (fst (dims c)) (snd (dims c))
                     (Anim.frames_upto AlphaBlend.do_alpha_blending (Anim_play.anim_of (anim_file c ms)) k))) /\
               (exists b : list Z, nth_error (play vp8 dec (S (length ms)) buf) (length ms) = Some (Err ENoMoreFrames, b))).
-  Proof. exact ReadImage_anim.read_frame_from_file_spec. Qed.
+  Proof. intros vp8 c ms Hwf Ha HF. exact (ReadImage_anim.read_frame_from_file_spec vp8 c ms Hwf Ha HF (Container_fits.wf_canvas_fits c Hwf)). Qed.
 
   (* the byte-level play = the frame-list play of Model/Anim.v, so read_frame_spec / play_is_shown / history_independent (C07) apply to frames decoded from the file *)
   Theorem play_from_file :
@@ -150,7 +150,6 @@ Module G.
            wf c = true ->
            anim c = true ->
            Forall2 (frame_decodes vp8 (fst (dims c)) (snd (dims c))) (frames c) ms ->
-           fst (dims c) * snd (dims c) * 4 < 4294967296 ->
            Anim_play.valid_file (anim_file c ms) /\
            (exists dec : Container_bytes.M.decoder,
               Container_bytes.M.new (serialize c) = Ok dec /\
@@ -159,7 +158,7 @@ Module G.
                play vp8 dec (length ms) buf = Anim.play (anim_file c ms) buf /\
                play vp8 dec (S (length ms)) buf =
                Anim.play (anim_file c ms) buf ++ [(Err ENoMoreFrames, last (map snd (Anim.play (anim_file c ms) buf)) buf)])).
-  Proof. exact ReadImage_anim.play_from_file. Qed.
+  Proof. intros vp8 c ms Hwf Ha HF. exact (ReadImage_anim.play_from_file vp8 c ms Hwf Ha HF (Container_fits.wf_canvas_fits c Hwf)). Qed.
 
 End G.
 
@@ -174,7 +173,6 @@ Module GC.
     forall (c : container) (ms : list Anim.mframe),
            wf c = true -> anim c = true ->
            Forall2 (frame_decodes_spec (fst (dims c)) (snd (dims c))) (frames c) ms ->
-           fst (dims c) * snd (dims c) * 4 < 4294967296 ->
            exists dec : Container_bytes.M.decoder,
              Container_bytes.M.new (serialize c) = Ok dec /\
              Container_bytes.M.num_frames dec = Z.of_nat (length ms) /\
@@ -188,13 +186,12 @@ Module GC.
                   Spec.Anim.render (alpha c) (fst (dims c)) (snd (dims c))
                     (Spec.Anim.frames_upto AlphaBlend.do_alpha_blending (Anim_play.anim_of (anim_file c ms)) k))) /\
               (exists b : list Z, nth_error (play Vp8Decode.decode_frame dec (S (length ms)) buf) (length ms) = Some (Err ENoMoreFrames, b))).
-  Proof. exact VP8_decode_readimage.read_frame_from_file_spec_closed. Qed.
+  Proof. intros c ms Hwf Ha HF. exact (VP8_decode_readimage.read_frame_from_file_spec_closed c ms Hwf Ha HF (Container_fits.wf_canvas_fits c Hwf)). Qed.
 
   Theorem play_from_file_closed :
     forall (c : container) (ms : list Anim.mframe),
            wf c = true -> anim c = true ->
            Forall2 (frame_decodes_spec (fst (dims c)) (snd (dims c))) (frames c) ms ->
-           fst (dims c) * snd (dims c) * 4 < 4294967296 ->
            Anim_play.valid_file (anim_file c ms) /\
            (exists dec : Container_bytes.M.decoder,
               Container_bytes.M.new (serialize c) = Ok dec /\
@@ -203,5 +200,5 @@ Module GC.
                play Vp8Decode.decode_frame dec (length ms) buf = Anim.play (anim_file c ms) buf /\
                play Vp8Decode.decode_frame dec (S (length ms)) buf =
                Anim.play (anim_file c ms) buf ++ [(Err ENoMoreFrames, last (map snd (Anim.play (anim_file c ms) buf)) buf)])).
-  Proof. exact VP8_decode_readimage.play_from_file_closed. Qed.
+  Proof. intros c ms Hwf Ha HF. exact (VP8_decode_readimage.play_from_file_closed c ms Hwf Ha HF (Container_fits.wf_canvas_fits c Hwf)). Qed.
 End GC.
